@@ -5,7 +5,7 @@ from props.common import *  # noqa: F401,F403
 GF = "ghedesigner.gfunction"
 FUNCTIONS = [f"{G}:BaseGHE.combine_sts_lts", f"{GF}:GFunction.borehole_radius_correction", f"{G}:BaseGHE.grab_g_function#body",
              "ghedesigner.output:OutputManager.get_g_function_data"]
-NATIVE_FUNCTIONS = [f"{G}:BaseGHE.combine_sts_lts", f"{GF}:calculate_g_function"]
+NATIVE_FUNCTIONS = [f"{G}:BaseGHE.combine_sts_lts", f"{GF}:GFunction.g_function_interpolation", f"{GF}:calculate_g_function"]
 NATIVE_CASES = {"quick": 12, "thorough": 400}
 NATIVE_LIMIT_S = {"quick": 60, "thorough": 1500}
 CASE_TIMEOUT = 200
@@ -18,8 +18,9 @@ def lemmas():
 
 ASSUMPTIONS = [A_REAL, A_ENGINE, A_DET, "scipy.interpolate.interp1d model: object with .x/.y = the data, f(x_k) = y_k at the nodes (A-NODE)",
                "A-LOG: log(xy) = log x + log y for positive x, y (hypothesis of the additivity lemma); log 1 = 0",
-               "g_function_interpolation is used through a caller view (one value per long-time point, positive radius); its stored-height clause is not yet under a discharged contract"]
-NOT_PROVED = ["'interpolating the long-time family at a stored height returns the stored curve': rests on A-NODE (interp1d node property); g_function_interpolation's body is not verified yet",
+               "g_function_interpolation is used through a caller view (one value per long-time point; curve G_LTS(B/H, k) and stored radius RB_LIB(B/H) are functions of B/H for the GHE's fixed family - A-DET); "
+               "its body (dict keyed by float heights, scipy interpolants) is out of the engine's reach: the stored-height clause is a bounded run-time contract"]
+NOT_PROVED = ["'interpolating the long-time family at a stored height returns the stored curve': bounded run-time contract on real GFunction objects (1..5 heights in arbitrary storage order, fresh and cached tables)",
               "UHTR curve = analytical FLS superposition within 1e-4 (1e-6 single) and MIFT within 20 %: numerical output of pygfunction - bounded run-time check against a scipy-quadrature FLS evaluator"]
 EXPLANATION = ("combine_sts_lts proved for all strictly increasing axes: the result axis is the short-time prefix strictly below the first long-time point followed by the long-time axis, "
                "values likewise, hence strictly increasing (while-loop invariant + variant; this failed on the pinned tree for a short-time point equal to the first long-time point - D13, fixed). "
